@@ -133,6 +133,63 @@ PROPS = {
                    "(the theorem is about hasher input; the harness checks equal input => equal DefaultHasher output). "
                    "arbitrary_precision numbers are modelled (string equality) but not exercised (configs d, po).",
     ),
+    "C08": dict(
+        lean_targets=["SJ.Props.C08", "SJ.Audit.C08"],
+        configs=dict(quick=["d"], thorough=["d", "po"]),
+        gen_keys=["pow10.", "Pow10"],
+        rule="fixed corpus of range-limit, sign, u64/i64-boundary and exponent-overflow literals; every power of ten "
+             "1e-400..1e400 in every spelling; random mantissas of 1-40 digits x exponents in +-400 in every spelling "
+             "(integer part only, fraction only, split, leading/trailing zeros, e/E, +/-/none, leading zeros in the "
+             "exponent, no exponent at all); shortest ({:e}) and Display representations of f64 values for every binary "
+             "exponent field 0..2046; the 15-digit / exponent-22 exactness frontier (1..17 digits x net exponents "
+             "-25..25) densely; +-120 (thorough +-600) last-place neighbourhoods of 1e308, f64::MAX, 2^1024, the rounding "
+             "threshold, f64::MIN_POSITIVE, 5e-324 and 2^-1075 at 17/19/20/22 digits; u64/i64 boundaries, long integers "
+             "(20-330 digits), integers with more than 24/53 significant bits (f32 target); exponents around and beyond "
+             "i32. Every literal goes through from_str, from_slice, from_reader and Value::as_f64 (f64) and the three "
+             "sources for f32. A case is non-trivial when the literal leaves the u64/i64 integer path (fraction, "
+             "exponent, more than 19 digits, -0); distinct = distinct case lines.",
+        trusted_base=[KERNEL, TIE,
+                      "rustc evaluates the float literals 1e0..1e308 by correct rounding; the hardware f64 *, / and the "
+                      "casts u64/i64 -> f64, f64 -> f32, u64/i64 -> f32 are IEEE-754 round-to-nearest-even (modelled as "
+                      "'exact result, rounded once'; confirmed bit-for-bit by the correspondence run)",
+                      "serde's f64/f32 primitive visitors (visit_u64/visit_i64/visit_f64 = `as` casts) and "
+                      "Number::as_f64 modelled by their source"],
+        assumptions=["IEEE-754 conformance of rustc constant evaluation and of the target's f64 multiply/divide/convert",
+                     "i32 exponent arithmetic does not wrap: literals shorter than 2^30 digits"],
+        partial=["c08_within_5ulp_partial: proved for one table operation (|exponent| <= 308; for divisions exact value >= "
+                 "2^-1021); missing: the `f /= 1e308` stepping below 1e-308, subnormal results, and the lift to literals "
+                 "whose digits beyond u64 are dropped - covered by the exact-rational oracle sweep only",
+                 "c08_overflow_direction_partial: proved at f64_from_parts (rejected => exact >= 2^1024-2^970-2^972; exact >= "
+                 "2^1024+2^972 => rejected); missing: lift through digit dropping and the parse_exponent_overflow path; "
+                 "'every value >= 2^1024 is rejected' is FALSE on the pinned code (known finding C08-F1)",
+                 "c08_underflow_zero_partial: proved at f64_from_parts for every exponent (exact value <= 2^-1076 => +-0, and "
+                 "every zero significand => +-0); missing: the lift to literals with dropped digits; values in "
+                 "(2^-1076, 2^-1075) may legitimately give the least subnormal (1 ulp)",
+                 "c08_f32_once: holds for float-path literals and integers below 2^53; FALSE for u64/i64-path integers above "
+                 "2^53 (serde casts the integer directly; known finding C08-F2, kernel-checked counterexample "
+                 "c08_f32_once_fails_on_large_int)"],
+        technique="Lean 4: IEEE-754 round-to-nearest-even defined on exact naturals and proved against a 'nearest finite "
+                  "double, ties to even, overflow from 2^1024-2^970' specification; exact-IEEE transcription of "
+                  "f64_from_parts and the digit collection; POW10 table, overflow! macro and the 1e308/308 constants "
+                  "re-extracted from src/de.rs each run and the table facts re-proved by kernel evaluation; bit-exact "
+                  "differential run of the model and exact-rational specification against the crate",
+        level_text="Machine-checked Lean 4 theorems over an exact-integer IEEE-754 semantics: roundNE64/roundNE32 are "
+                   "round-to-nearest-even (c08_roundNE64_spec, full minimality form); for every grammatical literal with at "
+                   "most 15 significant digits and net decimal exponent within +-22 the model of from_str::<f64> returns the "
+                   "correctly rounded value (c08_exact_short, and c08_exact_short_parts for any significand < 2^53); every "
+                   "result is finite and carries the literal's sign incl. -0 (c08_finite_signed); f32 = f64 result cast once "
+                   "on the float path (c08_f32_once); overflow direction, zero/underflow and the 5-ulp bound are proved at "
+                   "f64_from_parts for table exponents (…_partial). The 309-entry POW10 table, the overflow! macro body and "
+                   "the loop constants are regenerated from the source and re-proved on every run; the model is bit-exact "
+                   "against the crate on all generated literals and the exact-rational specification is evaluated on the "
+                   "crate's own outputs.",
+        level_note="Trusted: Lean kernel + propext/Classical.choice/Quot.sound; extract.py; harness/driver comparison; IEEE "
+                   "conformance of rustc literals and hardware ops; serde's primitive visitors. Partial: c08_within_5ulp_partial "
+                   "(|e|<=308, normal results), c08_overflow_direction_partial and c08_underflow_zero_partial (stated at "
+                   "f64_from_parts). Two open known findings on the pinned tree: C08-F1 (literals in [2^1024, 2^1024+2^972) "
+                   "can be accepted as f64::MAX) and C08-F2 (f32 from u64/i64-path integers is a direct cast, not f64 rounded "
+                   "once).",
+    ),
     "C18": dict(
         lean_targets=["SJ.Props.C18", "SJ.Audit.C18"],
         configs=dict(quick=["d"], thorough=["d", "po", "ap"]),
